@@ -703,8 +703,11 @@ impl<'a> Searcher<'a> {
 
                                         if file_type.is_symlink() {
                                             if let Ok(resolved) = std::fs::read_link(&path) {
+                                                path = match path.parent() {
+                                                    Some(parent) => parent.join(resolved),
+                                                    None => resolved,
+                                                };
                                                 ok = true;
-                                                path = resolved;
                                             }
                                         } else if file_type.is_dir() {
                                             ok = true;
